@@ -159,7 +159,8 @@ def run(eng: Engine, ck: Check):
     ck.floor('R-C13-PARENT.unset', len(calls_on(sc.node, '_unset_parent')), 1)
     sp = eng.func(DIST, f'{DN}._set_parent')
     # other distributed connections are closed, keeping parent and children
-    keep = [n for n in walk_local(sp.node) if isinstance(n, ast.ListComp) and 'self.parent' in unparse(n) and 'self.children' in unparse(n)]
+    keep = [n for n in walk_local(sp.node) if isinstance(n, (ast.ListComp, ast.SetComp)) and mentions_attr(expand_aliases(sp, n), 'parent')
+            and mentions_attr(expand_aliases(sp, n), 'children')]
     disc = [c for c in calls_on(sp.node, 'disconnect')]
     ok = bool(keep) and bool(disc) and any((not pol) and (cmp_atom(e) or ('',))[0] == 'in' for d in disc for e, pol, _ in eng.guards_at(sp, d))
     ck.ob('R-C13-PARENT', sp, sp.node, '_set_parent closes every other distributed connection except parent and children', ok, '', construct='set parent closes candidates')
